@@ -7,6 +7,7 @@ import (
 	"strings"
 
 	"verif/sim/common"
+	"verif/sim/instr"
 )
 
 // replayCmd re-executes a replay file against the CURRENT working tree.
@@ -47,6 +48,27 @@ func replayCmd(verifDir, repoDir, path string) int {
 	if len(rp.Session) == 0 {
 		fmt.Fprintln(os.Stderr, "replay: file has no session")
 		return 2
+	}
+	if rp.Variant == "small" {
+		// same knobs (by name/file/value) must still exist in the current tree
+		var ks []instr.Knob
+		for _, want := range rp.Knobs {
+			for _, have := range e.Report.Knobs {
+				if have.Name == want.Name && have.File == want.File && have.Value == want.Value && have.Use == want.Use {
+					ks = append(ks, have)
+					break
+				}
+			}
+		}
+		if len(ks) != len(rp.Knobs) {
+			fmt.Println("not reproduced on this tree: the capacity constants the replay shrinks no longer exist")
+			return 0
+		}
+		if err := prepareSmall(e, ks); err != nil {
+			fmt.Println("not reproduced on this tree: the shrunk variant does not build:", err)
+			return 0
+		}
+		curVariant = "small"
 	}
 	if err := refreshExpected(e, rp.Session); err != nil {
 		harnessFail("replay: reference evaluation failed: %v", err)
